@@ -154,6 +154,10 @@ def run(ctx: Ctx, tier: str) -> Result:
            "writes into it (the program's data changes, a read-only mapping raises into the program)")
     borrow(ctx, res, tier, "c14", ("C14.B", "C14.C"), "C01.HOOKS", "the trace hooks the program (a debugger, coverage) had installed are the ones put back when the agent stops, "
            "and are left alone when tracing is switched off: afterwards the program runs as it did before the agent")
+    borrow(ctx, res, tier, "c12", ("C12.APPLY",), "C01.R2", "a new configuration replaces the installed one in one step: while it is emptied and refilled in place, a function entered "
+           "at that moment finds `no tracepoints`, is not traced for the whole of its frame, and the tracepoints in it never act")
+    borrow(ctx, res, tier, "c04", ("C04.INT",), "C01.R1", "a limit that cannot be read as an integer falls back to its default where it is parsed: the parse error is never raised into "
+           "the code that registers the tracepoint")
     return res
 
 
